@@ -504,6 +504,18 @@ def cases(tier, seed):
                 if r != 4 or thorough:
                     add("natrep.vec", dict(din=din, dout=dout, r=r, entries=field, seed=seed), "natural_representation/%s/%s" % (dk(din, dout), field))
     add("natrep.rejects", {}, "natural_representation/mixed-shapes")
+    # Kraus families whose operators have different numpy dtypes (int64 first, then float64, then complex128), as typed in by hand
+    for din, dout in ((2, 2), (2, 3), (3, 2)):
+        for kind in ("cp", "noncp"):
+            for form in forms_for(kind, 3):
+                base = dict(din=din, dout=dout, r=3, kind=kind, form=form, entries="mixed-dtype", seed=seed)
+                add("apply.action", base, "apply_channel/%s/%s/mixed-dtype-family" % (form, kind))
+                add("k2c.formula", base, "kraus_to_choi/%s/%s/mixed-dtype-family" % (form, kind))
+                add("k2c.apply", base, "kraus_to_choi+apply_channel/%s/%s/mixed-dtype-family" % (form, kind))
+        add("natrep.vec", dict(din=din, dout=dout, r=3, entries="mixed-dtype", seed=seed), "natural_representation/mixed-dtype-family")
+    for before, after in (([2], []), ([], [2]), ([2], [2])):
+        for kind, form in (("cp", "flat"), ("noncp", "pairs")):
+            add("partial.kron", dict(before=before, after=after, din=2, dout=2, r=3, kind=kind, form=form, entries="mixed-dtype", seed=seed, dimform="list"), "partial_channel/%s/mixed-dtype-family" % form)
     for rect in ([2, 3, 4, 2], [3, 2, 2, 4], [1, 4, 2, 2], [4, 1, 3, 3]):
         for field in ("real", "complex"):
             base = dict(rect=rect, r=3, kind="noncp", form="pairs", entries=field, seed=seed)
